@@ -3,6 +3,8 @@
     [comparison], [sum] stay the extracted inductive types; no [Extract Constant]. *)
 From Coq Require Import Extraction ExtrOcamlBasic NArith List.
 From PV Require Import Marker.Sem508 Text.Cursor Text.MarkerParse Text.ReqParse Interner.Intern Interner.AndModel Interner.OpsModel Interner.DisjModel Interner.InternI Interner.EvalModel Interner.CmpModel Marker.CmpConcrete Names.NameModel Base.Order Base.CutDef DD.DDModel Marker.Concrete Marker.Expr Marker.ExtrasProofs Marker.DnfModel Marker.TopExtra Text.MarkerDisplay.
+(* concrete instance for the driver (the generic function takes the order dictionaries) *)
+Definition m_disjoint_i (fuel : nat) (a : Intern.marena) (x y : Store.nid) : bool := DisjModel.disjoint_i fuel a x y.
 Extraction Language OCaml.
 Separate Extraction
   N.add N.mul N.div_eucl N.eqb N.of_nat
@@ -11,5 +13,5 @@ Separate Extraction
   Concrete.m_and Concrete.m_or Concrete.m_not Concrete.m_disjoint Concrete.m_eval Concrete.m_wfb Concrete.m_eqb
   Concrete.m_simplify_extras Concrete.m_eval_extras Concrete.m_val_cmp Concrete.m_var_cmp
   Concrete.substring Concrete.is_range
-  Sem508.sem508 Sem508.compile Sem508.env_of_penv MarkerParse.parse_markers MarkerParse.parse_expression ReqParse.parse_requirement ReqParse.parse_unnamed ReqParse.parse_extras_text ReqParse.expand ReqParse.split_scheme ReqParse.split_extras ReqParse.looks_like_archive ReqParse.strip_host ReqParse.display_req ReqParse.display_unnamed Intern.m_compl Intern.m_nodes Intern.mrun Intern.observe InternI.mstep_i InternI.init_i EvalModel.m_eval_i EvalModel.m_eval_extras_i EvalModel.eval_fuel CmpModel.m_cmp_i DisjModel.disjoint_i DnfModel.to_dnf TopExtra.top_level_extra MarkerDisplay.show_marker CmpConcrete.m_cmp Concrete.m_simplify_pv Concrete.m_complexify_pv Concrete.m_eval_extras_pv ExtrasProofs.m_with_extra
+  Sem508.sem508 Sem508.compile Sem508.env_of_penv MarkerParse.parse_markers MarkerParse.parse_expression ReqParse.parse_requirement ReqParse.parse_unnamed ReqParse.parse_extras_text ReqParse.expand ReqParse.split_scheme ReqParse.split_extras ReqParse.looks_like_archive ReqParse.strip_host ReqParse.display_req ReqParse.display_unnamed Intern.m_compl Intern.m_nodes Intern.mrun Intern.observe InternI.mstep_i InternI.init_i EvalModel.m_eval_i EvalModel.m_eval_extras_i EvalModel.eval_fuel CmpModel.m_cmp_i DisjModel.disjoint_i m_disjoint_i DnfModel.to_dnf TopExtra.top_level_extra MarkerDisplay.show_marker CmpConcrete.m_cmp Concrete.m_simplify_pv Concrete.m_complexify_pv Concrete.m_eval_extras_pv ExtrasProofs.m_with_extra
   Expr.expression Expr.spec_range Expr.normalize_spec Expr.strip.
